@@ -12,8 +12,24 @@ import logging
 from lib import common
 from lib.hist import KVStore, SQLStore
 
+import contextvars
+
 _real_sleep = asyncio.sleep
+_real_queue = asyncio.Queue
 DISCONNECT = object()
+HELD = {"n": 0}      # query tasks currently kept waiting at a gate by lib.psess
+_current_conn = contextvars.ContextVar("verif_current_conn", default=None)
+
+
+class _RecQueue(_real_queue):
+    """asyncio.Queue that tells the harness connection in whose handler task it was created about itself
+    (start_client creates its subscription queue in its first synchronous step)"""
+
+    def __init__(self, *a, **k):
+        super().__init__(*a, **k)
+        c = _current_conn.get()
+        if c is not None and getattr(c, "_queue", None) is None:
+            c._queue = self
 
 
 async def _fast_sleep(delay, result=None):
@@ -41,20 +57,41 @@ class Relay:
         self.conns = []
         self.log = logging.getLogger("nostr_relay.verif.web")
         asyncio.sleep = _fast_sleep
+        asyncio.Queue = _RecQueue
 
     # -- helpers ---------------------------------------------------------------------------------
     def run(self, coro):
         return self.loop.run_until_complete(coro)
 
-    def settle(self, rounds=3):
+    def quiescent(self):
+        """nothing is in flight: every handler waits for its next message, every sender has drained its queue, no query or
+        notify task is pending (query tasks the harness holds at their gate excepted)"""
+        for c in self.conns:
+            if c.done:
+                continue
+            if not c.idle or not c.inbox.empty():
+                return False
+            if not c.stalled and c._queue is not None and not c._queue.empty():
+                return False
+            if not c.stalled and c.sending:
+                return False
+        pending_q = 0
+        for t in asyncio.all_tasks(self.loop):
+            if t.done():
+                continue
+            name = getattr(t.get_coro(), "__qualname__", "")
+            if name.endswith(".notify") or name.endswith("notify_all_connected"):
+                return False
+            if "run_query" in name:
+                pending_q += 1
+        return pending_q <= HELD["n"]
+
+    def settle(self, rounds=2, max_s=4.0):
         async def go():
-            last, stable, spins = None, 0, 0
-            while stable < rounds and spins < 400:
-                await _real_sleep(0.004)
-                snap = tuple((len(c.out), c.inbox.qsize(), c.done) for c in self.conns)
-                stable = stable + 1 if snap == last else 0
-                last = snap
-                spins += 1
+            stable, t0 = 0, self.loop.time()
+            while stable < rounds and self.loop.time() - t0 < max_s:
+                await _real_sleep(0.002)
+                stable = stable + 1 if self.quiescent() else 0
         self.run(go())
         if self.backend == "kv":
             self.store.quiesce()
@@ -82,6 +119,7 @@ class Relay:
             if not c.done:
                 c.close()
         asyncio.sleep = _real_sleep
+        asyncio.Queue = _real_queue
         self.store.close()
 
 
@@ -90,12 +128,17 @@ class Conn:
         import falcon
 
         self.relay = relay
-        self.inbox = asyncio.Queue()
+        self.inbox = _real_queue()
         self.out = []          # raw text frames sent to the client
         self.closed_with = None
         self.done = False
         self.exc = None
         self.remote_addr = remote_addr
+        self.stalled = False
+        self.idle = False
+        self.sending = False
+        self._unstall = asyncio.Event()
+        self._queue = None
         self._falcon = falcon
         relay.conns.append(self)
         if start:
@@ -106,10 +149,21 @@ class Conn:
         from nostr_relay import web
 
         async def ws_send(text):
-            self.out.append(text)
+            self.sending = True
+            try:
+                if self.stalled:
+                    # a client that has stopped reading its socket: the send does not complete
+                    await self._unstall.wait()
+                self.out.append(text)
+            finally:
+                self.sending = False
 
         async def ws_recv():
-            item = await self.inbox.get()
+            self.idle = True
+            try:
+                item = await self.inbox.get()
+            finally:
+                self.idle = False
             if item is DISCONNECT:
                 raise self._falcon.WebSocketDisconnected()
             if isinstance(item, tuple) and item and item[0] == "RAISE":
@@ -119,6 +173,7 @@ class Conn:
         async def ws_close(code=1000):
             self.closed_with = code
 
+        _current_conn.set(self)
         try:
             await web.start_client(self.relay.storage, ws_send, ws_recv, ws_close, self.relay.log,
                                    message_timeout=3600, rate_limiter=self.relay.limiter, remote_addr=self.remote_addr)
@@ -133,6 +188,11 @@ class Conn:
         self.inbox.put_nowait(text)
         if settle:
             self.relay.settle()
+
+    def queue_is(self, q):
+        """is `q` this connection's subscription queue?  (identified through the sender: the queue a Subscription of
+        this connection holds is the one whose items end up in self.out)"""
+        return getattr(self, "_queue", None) is q
 
     def frames(self, start=0):
         out = []
